@@ -32,24 +32,31 @@ static float gen_coef(Rng& r, int style) {
 static void gen_table(Rng& r, Gen& g, uint64_t maxcoef, const std::string& profile) {
   int nd;
   int w = r.range(0, 99);
-  if (w < 30) nd = 1; else if (w < 55) nd = 2; else if (w < 70) nd = 3; else if (w < 80) nd = 4; else nd = r.range(5, 9);
+  if (profile == "C03") nd = r.range(1, 9);
+  else if (w < 30) nd = 1; else if (w < 55) nd = 2; else if (w < 70) nd = 3; else if (w < 80) nd = 4; else nd = r.range(5, 9);
   g.ord.assign(nd, 0);
   int pat = r.range(0, 9);
   if (pat < 4) { int k = r.range(0, 5); for (auto& o : g.ord) o = k; }
-  else if (pat < 5 && nd == 6) { g.ord = {2, 2, 2, 3, 2, 2}; }
-  else if (pat < 6 && nd == 6) { g.ord = {2, 2, 2, 5, 2, 2}; }
+  else if (pat < 5 && (nd == 6 || profile == "C03")) { nd = 6; g.ord = {2, 2, 2, 3, 2, 2}; }
+  else if (pat < 6 && (nd == 6 || profile == "C03")) { nd = 6; g.ord = {2, 2, 2, 5, 2, 2}; }
   else if (pat < 8) { int k = r.range(2, 3); for (auto& o : g.ord) o = k; }
   else for (auto& o : g.ord) o = r.range(0, 5);
   // shrink until the coefficient count fits
   std::vector<int> extra(nd);
   for (auto& e : extra) { int m = r.range(0, 9); e = m < 3 ? 0 : m < 5 ? 1 : m < 7 ? 2 : r.range(3, 8); }
+  if (profile == "C03") {
+    if (pat >= 4 && pat < 6) { nd = 6; g.ord = (pat == 4) ? std::vector<uint32_t>{2, 2, 2, 3, 2, 2} : std::vector<uint32_t>{2, 2, 2, 5, 2, 2}; extra.assign(nd, 0); }
+    if (nd >= 5) for (auto& e : extra) e = r.coin(1, 4) ? 1 : 0;
+  }
   auto count = [&]() { uint64_t n = 1; for (int i = 0; i < nd; i++) n *= (uint64_t)(g.ord[i] + 1 + extra[i]); return n; };
+  bool equal_pattern = true; for (int i = 1; i < nd; i++) if (g.ord[i] != g.ord[0]) equal_pattern = false;
   while (count() > maxcoef) {
-    int i = r.range(0, nd - 1);
-    if (extra[i] > 0) extra[i]--; else if (g.ord[i] > 0 && r.coin()) g.ord[i]--; else { bool any = false; for (int e : extra) any |= e > 0; if (!any) { for (auto& o : g.ord) if (o > 0) { o--; break; } } }
+    bool anyextra = false; for (int e : extra) anyextra |= e > 0;
+    if (anyextra) { int i = r.range(0, nd - 1); if (extra[i] > 0) extra[i]--; continue; }
+    if (equal_pattern && profile == "C03") { for (auto& o : g.ord) if (o > 0) o--; continue; }  // keep the constant-order pattern
+    int i = r.range(0, nd - 1); if (g.ord[i] > 0) g.ord[i]--;
   }
   g.kn.clear(); g.padded.clear();
-  int padstyle = r.range(0, 3);
   for (int i = 0; i < nd; i++) {
     int style = r.range(0, 3);
     if (profile == "C02" && style == 2 && r.coin(3, 4)) style = 1;
@@ -64,15 +71,6 @@ static void gen_table(Rng& r, Gen& g, uint64_t maxcoef, const std::string& profi
   g.coef.resize(nc);
   for (auto& c : g.coef) c = gen_coef(r, cstyle);
   stats["coefstyle_" + std::to_string(cstyle)]++;
-  // padding values seen by both sides
-  std::vector<double> pads;
-  for (int i = 0; i < 64; i++) {
-    switch (padstyle) { case 0: pads.push_back(std::numeric_limits<double>::quiet_NaN()); break; case 1: pads.push_back(r.unit() * 200 - 100); break;
-      case 2: pads.push_back(r.coin() ? INFINITY : -INFINITY); break; default: pads.push_back(0.0); }
-  }
-  stats["padstyle_" + std::to_string(padstyle)]++;
-  g.padded = {};
-  (void)pads;
 }
 
 static void emit_table(const Table& t) {
@@ -120,6 +118,7 @@ int main(int argc, char** argv) {
   uint64_t maxcoef = argc > 7 ? strtoull(argv[7], nullptr, 10) : 20000;
   Rng r(env_seed() * 0x9e3779b97f4a7c15ULL + std::hash<std::string>()(profile));
   bool wild = (profile == "C05" || profile == "C04");
+  stats["paths_points"] = 0;
   long path_mismatch = 0;
   for (long it = 0; it < ntables; it++) {
     Gen g; gen_table(r, g, maxcoef, profile);
@@ -135,7 +134,7 @@ int main(int argc, char** argv) {
       for (uint32_t d = 0; d < nd; d++) { std::string k; x[d] = pick_x(r, g.kn[d], g.ord[d], wild, k); stats["x_" + k]++; }
       bool ok = t.searchcenters(x.data(), c.data());
       // S line
-      fprintf(fc, "S"); for (uint32_t d = 0; d < nd; d++) fprintf(fc, " %llu", (unsigned long long)bits(x[d])); fprintf(fc, "\n");
+      fprintf(fc, "S"); for (uint32_t d = 0; d < nd; d++) fprintf(fc, " %llu", (unsigned long long)bits(x[d])); fprintf(fc, "\n"); fflush(fc);
       if (ok) { fprintf(fi, "ok"); for (uint32_t d = 0; d < nd; d++) fprintf(fi, " %d", c[d]); fprintf(fi, "\n"); } else fprintf(fi, "reject\n");
       stats[ok ? "lookup_ok" : "lookup_reject"]++;
       { // the C wrapper and the evaluator object must agree with the member function
@@ -154,6 +153,50 @@ int main(int argc, char** argv) {
         fprintf(fc, "%s %s 0", profile == "C01" ? "V" : "B", prec); emit_xc();
         fprintf(fi, "%llu\n", (unsigned long long)(dbl ? call_value<double>(t, x.data(), c.data(), 0) : call_value<float>(t, x.data(), c.data(), 0)));
         stats[std::string("value_") + prec]++;
+      } else if (profile == "C03" || profile == "C05") {
+        auto X = [&](const char* what, uint64_t a, uint64_t b) { path_mismatch++; fprintf(fc, "X %s\n", what); fprintf(fi, "mismatch %llu %llu\n", (unsigned long long)a, (unsigned long long)b); };
+        int mask = r.range(0, (1 << nd) - 1); if (r.coin(1, 3)) mask = 0;
+        std::vector<unsigned> ks(nd); for (uint32_t d = 0; d < nd; d++) ks[d] = r.coin(1, 2) ? 0 : r.range(0, g.ord[d] + 1);
+        auto evf = t.get_evaluator<float>(); auto evd = t.get_evaluator<double>();
+        // values / bitmask derivatives: generic member, evaluator (whatever routine it dispatches to), C interface
+        uint64_t vf = call_value<float>(t, x.data(), c.data(), mask), vd = call_value<double>(t, x.data(), c.data(), mask);
+        fprintf(fc, "B f %d", mask); emit_xc(); fprintf(fi, "%llu\n", (unsigned long long)vf);
+        fprintf(fc, "B d %d", mask); emit_xc(); fprintf(fi, "%llu\n", (unsigned long long)vd);
+        stats["paths_points"]++;
+        if (cbits(evf.ndsplineeval(x.data(), c.data(), mask)) != vf) X("evaluator<float>.ndsplineeval != member", vf, cbits(evf.ndsplineeval(x.data(), c.data(), mask)));
+        if (cbits(evd.ndsplineeval(x.data(), c.data(), mask)) != vd) X("evaluator<double>.ndsplineeval != member", vd, cbits(evd.ndsplineeval(x.data(), c.data(), mask)));
+        if (cbits(ndsplineeval(&ct, x.data(), c.data(), mask)) != vf) X("C ndsplineeval != member", vf, cbits(ndsplineeval(&ct, x.data(), c.data(), mask)));
+        if (cbits(evf(x.data(), mask)) != vf) X("evaluator<float> call operator != member", vf, cbits(evf(x.data(), mask)));
+        if (cbits(evd(x.data(), mask)) != vd) X("evaluator<double> call operator != member", vd, cbits(evd(x.data(), mask)));
+        // arbitrary-order derivatives
+        uint64_t df = cbits(t.ndsplineeval_deriv(x.data(), c.data(), ks.data()));
+        fprintf(fc, "E f"); for (uint32_t d = 0; d < nd; d++) fprintf(fc, " %u", ks[d]); emit_xc(); fprintf(fi, "%llu\n", (unsigned long long)df);
+        uint64_t dd = cbits(evd.ndsplineeval_deriv(x.data(), c.data(), ks.data()));
+        fprintf(fc, "E d"); for (uint32_t d = 0; d < nd; d++) fprintf(fc, " %u", ks[d]); emit_xc(); fprintf(fi, "%llu\n", (unsigned long long)dd);
+        if (cbits(evf.ndsplineeval_deriv(x.data(), c.data(), ks.data())) != df) X("evaluator<float>.ndsplineeval_deriv != member", df, 0);
+        if (cbits(ndsplineeval_deriv(&ct, x.data(), c.data(), ks.data())) != df) X("C ndsplineeval_deriv != member", df, 0);
+        if (cbits(t.ndsplineeval_deriv(x.data(), c.data(), nullptr)) != call_value<float>(t, x.data(), c.data(), 0)) X("ndsplineeval_deriv(nullptr) != value", 0, 0);
+        // value + gradient
+        for (int dblg = 0; dblg < 2; dblg++) {
+          std::vector<double> gm(nd + 1, -7), ge(nd + 1, -7), gc(nd + 1, -7);
+          bool threw = false, threw_e = false, threw_c = false;
+          try { if (dblg) t.ndsplineeval_gradient<double>(x.data(), c.data(), gm.data()); else t.ndsplineeval_gradient<float>(x.data(), c.data(), gm.data()); } catch (std::exception&) { threw = true; }
+          try { if (dblg) evd.ndsplineeval_gradient(x.data(), c.data(), ge.data()); else evf.ndsplineeval_gradient(x.data(), c.data(), ge.data()); } catch (std::exception&) { threw_e = true; }
+          fprintf(fc, "G %s", dblg ? "d" : "f"); emit_xc();
+          if (threw) { fprintf(fi, "refused\n"); stats["gradient_refused"]++; }
+          else { for (uint32_t j = 0; j <= nd; j++) fprintf(fi, "%s%llu", j ? " " : "", (unsigned long long)cbits(gm[j])); fprintf(fi, "\n"); stats["gradient_ok"]++; }
+          if (threw != threw_e) X("gradient refusal differs between member and evaluator", threw, threw_e);
+          if (!threw && !threw_e) for (uint32_t j = 0; j <= nd; j++) if (cbits(gm[j]) != cbits(ge[j])) X("evaluator gradient lane != member lane", cbits(gm[j]), cbits(ge[j]));
+          if (!threw) {
+            uint64_t v0 = dblg ? call_value<double>(t, x.data(), c.data(), 0) : call_value<float>(t, x.data(), c.data(), 0);
+            if (cbits(gm[0]) != v0) X("gradient value lane != plain value", cbits(gm[0]), v0);
+            for (uint32_t j = 0; j < nd; j++) { uint64_t vj = dblg ? call_value<double>(t, x.data(), c.data(), 1 << j) : call_value<float>(t, x.data(), c.data(), 1 << j);
+              if (cbits(gm[j + 1]) != vj) X("gradient lane != single-derivative evaluation", cbits(gm[j + 1]), vj); }
+          }
+          if (!dblg) { try { ndsplineeval_gradient(&ct, x.data(), c.data(), gc.data()); } catch (std::exception&) { threw_c = true; }
+            if (threw_c != threw) X("C gradient refusal differs", threw_c, threw);
+            if (!threw && !threw_c) for (uint32_t j = 0; j <= nd; j++) if (cbits(gm[j]) != cbits(gc[j])) X("C gradient lane != member lane", cbits(gm[j]), cbits(gc[j])); }
+        }
       } else if (profile == "C02") {
         int mask = r.range(0, (1 << nd) - 1); if (r.coin(1, 4)) mask = 1 << r.range(0, nd - 1);
         fprintf(fc, "V %s %d", prec, mask); emit_xc();
